@@ -416,6 +416,31 @@ class ScriptGen:
         return script, []
 
     # ---- limit probes ------------------------------------------------------------------------
+    def one_op_programs(self):
+        progs = []
+        for b in range(256):
+            progs.append(bytes([b]))
+            if 1 <= b <= 0x4b:
+                progs.append(bytes([b]) + bytes([b]) * b)
+            elif b == 0x4c:
+                progs += [b'\x4c\x00', b'\x4c\x03abc', b'\x4c\x03ab']
+            elif b == 0x4d:
+                progs += [b'\x4d\x00\x00', b'\x4d\x02\x00ab', b'\x4d\x02', b'\x4d\x02\x00a']
+            elif b == 0x4e:
+                progs += [b'\x4e\x00\x00\x00\x00', b'\x4e\x01\x00\x00\x00a', b'\x4e\x01\x00\x00', b'\x4e\x01\x00\x00\x00']
+        return progs
+
+    def grid_1op(self):
+        """the exhaustive grid shared by C06 (verdict / final stack against the reference) and C07 (outcome family):
+        [(program, initial stack)] for every 1-opcode program x the base stacks + the stacks aimed at that opcode;
+        number and order independent of any random generator"""
+        stacks = self.base_stacks()
+        out = []
+        for prog in self.one_op_programs():
+            for st in stacks + (self.op_stacks(prog[0]) if len(prog) == 1 else []):
+                out.append((prog, st))
+        return out
+
     def limit_probes(self, rng):
         """[(script, stack)]"""
         out = []
@@ -1130,20 +1155,6 @@ class C06(Prop, ScriptGen):
         return mk('c06.verify', bytes(sig).hex(), bytes(spk).hex(), mask, self.txtext[ti], idx, tag=tag,
                   ood=not self.in_domain(ti, idx))
 
-    def one_op_programs(self):
-        progs = []
-        for b in range(256):
-            progs.append(bytes([b]))
-            if 1 <= b <= 0x4b:
-                progs.append(bytes([b]) + bytes([b]) * b)
-            elif b == 0x4c:
-                progs += [b'\x4c\x00', b'\x4c\x03abc', b'\x4c\x03ab']
-            elif b == 0x4d:
-                progs += [b'\x4d\x00\x00', b'\x4d\x02\x00ab', b'\x4d\x02', b'\x4d\x02\x00a']
-            elif b == 0x4e:
-                progs += [b'\x4e\x00\x00\x00\x00', b'\x4e\x01\x00\x00\x00a', b'\x4e\x01\x00\x00', b'\x4e\x01\x00\x00\x00']
-        return progs
-
     def common_rng(self, tier):
         """structural randomness: identical in every shard (everything that feeds an index-partitioned enumeration)"""
         import random
@@ -1156,16 +1167,13 @@ class C06(Prop, ScriptGen):
         big = tier == 'thorough'
         crng = self.common_rng(tier)
         i = 0
-        stacks = self.base_stacks()
-        # (a) exhaustive 1-opcode programs
-        for prog in self.one_op_programs():
-            sts = stacks + (self.op_stacks(prog[0]) if len(prog) == 1 else [])
-            for st in sts:
-                i += 1
-                if i % nshards != shard:
-                    continue
-                for mask in ADMISSIBLE:
-                    yield self.ev(prog, st, mask, tag='1op')
+        # (a) exhaustive 1-opcode programs (ScriptGen.grid_1op, also fed through C07's outcome-family test)
+        for (prog, st) in self.grid_1op():
+            i += 1
+            if i % nshards != shard:
+                continue
+            for mask in ADMISSIBLE:
+                yield self.ev(prog, st, mask, tag='1op')
         # (a') exhaustive 2-opcode programs over the opcodes that are not plain pushes (3 stacks quick, 8 thorough),
         #      and every such opcode in three contexts: with an item on the altstack, inside an executed IF,
         #      inside a branch that is not executed
